@@ -3,6 +3,10 @@
 import json
 
 CLAIMS = {
+ "C10": dict(cat="model_checking", design="6 C10",
+  text="Explicit-state breadth-first search over real input.Point values (including the private key index): 4 initial points x 113 builtin events (add, overwrite with 7 value kinds, move to tag, drop, rename over all ordered key pairs, cast, delete-on-set-measurement, default_time, grok captures) to depth 3 (quick) / 4 (thorough) with de-duplication, every transition executed by the real engine on a deep clone; in every one of ~134000 distinct states five invariants are evaluated (read-back of every output key through Point.Get and a script, tag/field exclusivity, field types, no phantom reads, droppable/renamable look-ahead) and the state is compared with a reference point model.",
+  note="De-duplication is per worker below level 1. The reference stops tracking after an unspecified cell (rename onto an existing key); the invariants are still checked there.",
+  tech="explicit-state BFS over the real transition function with invariants in every state and a reference-model differential"),
  "C18": dict(cat="model_checking", design="6 C18",
   text="On the real v2 interpreter with probe functions returning zero, one and two values: every one of 52 value positions x 7 no-value constructs x 10 preceding statements (a stale register is distinguishable by construction), every tuple assignment of up to 3 targets and sources, the whole C02 operator table and probed trees, the C04 slice table, index paths and aliasing sequences and every control-flow program of size <=3 are compared with the reference interpreter in its v2 dialect. About 2 million programs in the quick tier, enumerated completely.",
   note="Functions are assumed to declare their return values in FnDesc.Returns. v1 is not run side by side; both are compared against the same reference in their own checks.",
